@@ -64,6 +64,20 @@ Theorem canonical_is_spec_partial : forall ord cf fuel tag l a s,
 Proof. intros ord cf fuel tag l a s OF H. exact (history_canonical_is_spec ord cf fuel tag l a s OF H). Qed.
 Print Assumptions canonical_is_spec_partial.
 
+(** two successful histories over the same contributed names (any order, any HashMap order, any fuel) give every name the
+    same canonical name and import the same names *)
+Theorem canonical_order_indep_partial : forall ord ord' cf fuel cf' fuel' tag tag' l l' a a' s s',
+  owner_free_history l -> owner_free_history l' -> (forall n, In n (map fst l) <-> In n (map fst l')) ->
+  history_ok ord cf fuel tag l a s -> history_ok ord' cf' fuel' tag' l' a' s' ->
+  (forall n, In n (map fst l) -> Aggregator.canonical a n = Aggregator.canonical a' n) /\
+  (forall k, In k (map fst (imports a)) -> In k (map fst (imports a'))).
+Proof.
+  intros ord ord' cf fuel cf' fuel' tag tag' l l' a a' s s' O O' P H H'. split.
+  - exact (canonical_order_indep ord ord' cf fuel cf' fuel' tag tag' l l' a a' s s' O O' P H H').
+  - exact (import_names_order_indep ord ord' cf fuel cf' fuel' tag tag' l l' a a' s s' O O' P H H').
+Qed.
+Print Assumptions canonical_order_indep_partial.
+
 (** one more aggregation leaves the canonical name of every name of another track alone *)
 Theorem other_tracks_untouched_partial : forall ord cf fuel tag l a s name t k a' s',
   owner_free_history l -> history_ok ord cf fuel tag l a s -> owner_free t ->
@@ -118,20 +132,23 @@ Print Assumptions merge_upper_bound_component_refuted.
       has the aggregator's tag [tag0];
     - [UnfK t k tr] := exists g, unfold g t k = Some tr        (the kind denotes the tree, at some fuel);
     - [leafk k]: k is a function, a value, or a value type      (KFunc | KValue | KType (TValue _));
-    - [flat_if t x]: interface x has no identifier, no uses, pairwise different export names, and every export is a
-      leaf kind that denotes a resource-free tree in t;
-    - [flat_contrib Col (n, (t, k))]: Col t, t has no owned resource alias, k = KInstance i with [flat_if t (t[i])];
+    - [flat_if t x]: interface x has no uses, pairwise different export names, and every export is a leaf kind that
+      denotes a resource-free tree in t;
+    - [flat_contrib Col (n, (t, k))]: Col t, t has no owned resource alias, k = KInstance i with [flat_if t (t[i])], and the
+      interface has no identifier or the import name itself as identifier (what world imports look like);
+    - [ord] only ever yields entries of the table it is given ([forall l x, In x (ord l) -> In x l]);
     - [ckey]: the contributed interface (with its arena tag): each interface is contributed once.
     No fuel hypothesis is needed: the theorem speaks about successful histories, and an accepting checker verdict is
     sound whatever the fuel (AggregatorChecker.v).  Not covered: nested instances / components (refuted above), resources,
-    `use`d types, interfaces with identifiers (the interface-id table), one interface contributed twice. *)
+    `use`d types, interfaces whose identifier differs from the import name, one interface contributed twice. *)
 Theorem merge_upper_bound_partial : forall ord cf fuel (Col : types -> Prop) tag0,
+  (forall l x, In x (ord l) -> In x l) ->
   (forall t1 t2, Col t1 -> Col t2 -> t_tag t1 = t_tag t2 -> t1 = t2) -> (forall t, Col t -> t_tag t <> tag0) ->
   forall l a s, Forall (flat_contrib Col) l -> NoDup (map ckey l) -> history_ok ord cf fuel tag0 l a s ->
   forall c, In c l -> forall tr, UnfK (fst (snd c)) (snd (snd c)) tr ->
     exists merged tm, assoc (Aggregator.canonical a (fst c)) (imports a) = Some merged /\
                       UnfK (a_types a) merged tm /\ SubCM tm tr.
-Proof. intros ord cf fuel Col tag0 Hs Ht. exact (flat_upper_bound ord cf fuel Col Hs tag0 Ht). Qed.
+Proof. intros ord cf fuel Col tag0 Ho Hs Ht. exact (flat_upper_bound ord Ho cf fuel Col Hs tag0 Ht). Qed.
 Print Assumptions merge_upper_bound_partial.
 
 (** [instance_merge_is_union] (and, for a requirement whose exports are all present already, [aggregate_idempotent] /
@@ -142,26 +159,27 @@ Print Assumptions merge_upper_bound_partial.
     same nested-instance witness (the nested export keeps the poorer instance). *)
 Theorem instance_merge_is_union_partial : forall ord cf fuel (Col : types -> Prop) tag0,
   (forall t1 t2, Col t1 -> Col t2 -> t_tag t1 = t_tag t2 -> t1 = t2) -> (forall t, Col t -> t_tag t <> tag0) ->
-  forall a s done c a' s' y exs,
+  forall a s done c a' s' y oid exs,
   HInv Col tag0 a s done -> flat_contrib Col c ->
   (assoc (fst c) (a_imports a) = Some (KInstance y) \/
    (assoc (fst c) (a_imports a) = None /\ exists en, find_compat (fst c) (a_imports a) = Some (en, KInstance y))) ->
-  get_if (a_types a) y = Some (mkif None [] exs) ->
+  get_if (a_types a) y = Some (mkif oid [] exs) ->
   aggregate ord cf fuel a s (fst c) (fst (snd c)) (snd (snd c)) = AOk (a', s') ->
   forall i x, snd (snd c) = KInstance i -> get_if (fst (snd c)) i = Some x ->
-    exists exs', get_if (a_types a') y = Some (mkif None [] exs') /\
+    exists exs', get_if (a_types a') y = Some (mkif oid [] exs') /\
                  map fst exs' = first_seen_union (map fst exs) (map fst (i_exports x)).
 Proof. intros ord cf fuel Col tag0 Hs Ht. exact (flat_merge_is_union ord cf fuel Col Hs tag0 Ht). Qed.
 Print Assumptions instance_merge_is_union_partial.
 
 (** [HInv] is the invariant of flat histories: it holds initially and after every successful flat aggregation. *)
 Theorem flat_history_invariant : forall ord cf fuel (Col : types -> Prop) tag0,
+  (forall l x, In x (ord l) -> In x l) ->
   (forall t1 t2, Col t1 -> Col t2 -> t_tag t1 = t_tag t2 -> t1 = t2) -> (forall t, Col t -> t_tag t <> tag0) ->
   HInv Col tag0 (agg0 tag0) st0 [] /\
   forall a s done c a' s', HInv Col tag0 a s done -> flat_contrib Col c -> ~ In (ckey c) (map ckey done) ->
     aggregate ord cf fuel a s (fst c) (fst (snd c)) (snd (snd c)) = AOk (a', s') -> HInv Col tag0 a' s' (c :: done).
 Proof.
-  intros ord cf fuel Col tag0 Hs Ht. split; [exact (HInv_nil Col tag0) | exact (HInv_step ord cf fuel Col Hs tag0 Ht)].
+  intros ord cf fuel Col tag0 Ho Hs Ht. split; [exact (HInv_nil Col tag0) | exact (HInv_step ord Ho cf fuel Col Hs tag0 Ht)].
 Qed.
 Print Assumptions flat_history_invariant.
 
@@ -175,6 +193,25 @@ Theorem aggregate_order_indep_refuted :
                (exists p e, run l' = inr (p, AErr e)).
 Proof. exact order_witness. Qed.
 Print Assumptions aggregate_order_indep_refuted.
+
+(** Proved for flat multisets, under the hypothesis that BOTH orders succeed: the canonical names agree and the merged
+    requirement of every contributed name is the same tree up to the order of its exports (each is a subtype of the
+    other).  Missing for the full partial statement ("success is the same"): completeness of the checker at the given
+    fuel and absence of panics in the copy, i.e. a sufficient-fuel / well-formedness development for the aggregator's
+    own growing collection (the fuel a copied type needs is not bounded by the contributors' fuel: a remapped alias chain
+    can be longer than the source's). *)
+Theorem aggregate_order_indep_partial : forall ord cf fuel (Col : types -> Prop) tag0,
+  (forall l x, In x (ord l) -> In x l) ->
+  (forall t1 t2, Col t1 -> Col t2 -> t_tag t1 = t_tag t2 -> t1 = t2) -> (forall t, Col t -> t_tag t <> tag0) ->
+  forall l l' a s a' s', Forall (flat_contrib Col) l -> NoDup (map ckey l) -> Permutation l l' ->
+  history_ok ord cf fuel tag0 l a s -> history_ok ord cf fuel tag0 l' a' s' ->
+  forall n, In n (map fst l) ->
+    Aggregator.canonical a n = Aggregator.canonical a' n /\
+    exists m m' tm tm', assoc (Aggregator.canonical a n) (imports a) = Some m /\
+                        assoc (Aggregator.canonical a' n) (imports a') = Some m' /\
+                        UnfK (a_types a) m tm /\ UnfK (a_types a') m' tm' /\ SubCM tm tm' /\ SubCM tm' tm.
+Proof. intros ord cf fuel Col tag0 Ho Hs Ht. exact (flat_order_indep ord Ho cf fuel Col Hs tag0 Ht). Qed.
+Print Assumptions aggregate_order_indep_partial.
 
 (** the merged map itself can depend on the order even when every order succeeds (one interface identifier under two
     import names) *)
@@ -205,16 +242,16 @@ Proof.
 Qed.
 Print Assumptions fails_iff_conflict_refuted.
 
-(** Non-vacuity of the flat theorems: anonymous interfaces {f}, {g}, {f,h} under three versions of one track merge to
-    the union under the highest version. *)
+(** Non-vacuity of the flat theorems: interfaces {f}, {g}, {f,h} identified by their import names, three versions of one
+    track, merge to the union under the highest version. *)
 Example flat_nonvacuous :
-  Forall (flat_contrib anon_col) w_anon /\ NoDup (map ckey w_anon) /\
-  (forall t1 t2, anon_col t1 -> anon_col t2 -> t_tag t1 = t_tag t2 -> t1 = t2) /\ (forall t, anon_col t -> t_tag t <> 0) /\
-  exists a s, run w_anon = inl (a, s) /\ map fst (imports a) = [n_023] /\
+  Forall (flat_contrib flat_col) w_flat /\ NoDup (map ckey w_flat) /\
+  (forall t1 t2, flat_col t1 -> flat_col t2 -> t_tag t1 = t_tag t2 -> t1 = t2) /\ (forall t, flat_col t -> t_tag t <> 0) /\
+  exists a s, run w_flat = inl (a, s) /\ map fst (imports a) = [n_023] /\
               merged_tree a n_023 =
               Some (XInst [([102], XFunc (mkft [] None false)); ([103], XFunc (mkft [([120], VTPrim PU8)] None false));
                            ([104], XFunc (mkft [] (Some (VTPrim PString)) false))]).
-Proof. exact (conj w_anon_flat (conj w_anon_distinct (conj anon_col_same (conj anon_col_tag anon_run)))). Qed.
+Proof. exact (conj w_flat_flat (conj w_flat_distinct (conj flat_col_same (conj flat_col_tag flat_merged)))). Qed.
 
 (** Non-vacuity of the partial theorems: three versions of one track arriving as 0.2.1, 0.2.0, 0.2.3. *)
 Example canonical_nonvacuous :
